@@ -36,7 +36,7 @@ check(
     "C10",
     "fault_enumeration",
     "Seeded sampling of crash points and crash sequences: every run executes the real MD engine, HDF5/XYZ writers and checkpoint code under a simulator-owned I/O seam; 1-3 crashes per run (hard kill at a low-level I/O event incl. torn writes, hard kill at a Python line event, exception unwinding, ENOSPC on the checkpoint path, crashes inside resume initialisation) with resume after each; the final files must equal those of the uninterrupted run exactly and the checkpoint on disk must load after every crash. Sampling, not exhaustive: a clean batch is evidence, not proof.",
-    "Crash = process death (page cache survives). HDF5 low-level driver substituted by h5py's file-object driver so that each pwrite is an event. Engines: BOMD, Langevin, XL-BOMD k=3..9, damped XL, KSA, excited-state BOMD / XL-BOMD / XL-ESMD (stub with synthetic amplitudes and transition densities, and real), surface hopping (model engine and three pinned production runs), UHF BOMD/Langevin on the real driver; options incl. write_mo, transition properties, transition-density cadence. Electronic structure is a stub for most runs (real SEQM in a stated fraction). The HDF5 torn-flush window is a committed known finding and is matched by crash site, not by property id.",
+    "Crash = process death (page cache survives). HDF5 low-level driver substituted by h5py's file-object driver so that each pwrite is an event. Engines: BOMD, Langevin, XL-BOMD k=3..9, damped XL, KSA, excited-state BOMD / XL-BOMD / XL-ESMD (stub with synthetic amplitudes and transition densities, and real), surface hopping (model engine and three pinned production runs), UHF BOMD/Langevin on the real driver; options incl. write_mo, transition properties, transition-density cadence. Electronic structure is a stub for most runs (real SEQM in a stated fraction). Two committed known findings, matched by site, not by property id: the HDF5 torn-flush window (crash site inside a flush/close burst) and production XL-ESMD with transition properties requested (engine + option + TypeError of a resuming incarnation at the transition_dipole line; record 4 of every run).",
     "deterministic simulation: seeded crash/fault schedules over an I/O-event and line-event clock, fork-per-incarnation, exact comparison with a fault-free reference run",
     "mdsim",
     "DESIGN.md section 5 (C10)",
@@ -76,7 +76,7 @@ check(
     "C09",
     "exploration",
     "Four layers on the real XL_BOMD/KSA_XL_BOMD objects. Recurrence: the real integrator step (real coefficient window and history-slot arithmetic) driven with synthetic densities on a frozen geometry; fixed point to round-off and bounded, non-growing response to a perturbation injected at every buffer phase, for every k in 3..9, every phase, a gamma grid and both variants - the k x phase space is enumerated completely in every run. Restart: crash+resume at every buffer phase must continue exactly (density and transition-density history made visible in the files; plain, Krylov, damped, excited-state XL-BOMD and XL-ESMD). Reuse: a driver object used before starts its second run like a new one. Consistency: real SEQM, XL energy/forces at P = converged D equal the SCF ones (plain, Krylov rank 1-4, T_el <= 1500 K) and do not depend on zero-padded batch mates (T_el up to 8000 K). Scaling: real SEQM shadow-energy fluctuation ~ dt^2, no drift, convergence to the BOMD trajectory (ground state; XL-ESMD and excited-state XL-BOMD against excited-state BOMD).",
-    "Stability is sampled over a response grid (not a root-locus proof). Frozen bounds: amplification <= 2, growth <= 1.05, fixed point 1e-12. Above 1500 K thermal occupations legitimately move the XL energy off the zero-temperature SCF one; only batch independence is decided there.",
+    "Stability is sampled over a response grid (not a root-locus proof). Frozen bounds: amplification <= 2, growth <= 1.05, fixed point 1e-12. Above 1500 K thermal occupations legitimately move the XL energy off the zero-temperature SCF one; only batch independence is decided there. Committed known finding: production XL-ESMD on excited states above the first (matched by engine and active state in the scaling layer; one pinned family per run).",
     "deterministic simulation: real XL-BOMD step driven by a stub density response over the complete k x buffer-phase grid, crash/restart at every phase, plus seeded real-driver families",
     "mdsim",
     "DESIGN.md section 5 (C09)",
